@@ -36,6 +36,13 @@ RELAYOUT = {"filter", "drop_all", "sort", "sort_order", "update_ids", "transform
 def cases(draw, tier):
     kind = draw(st.sampled_from(["count", "count", "int", "posdyadic"]))
     spec = draw(gen.table_specs(tier, values=kind, md=True, history=False))
+    if draw(st.sampled_from([False] * 7 + [True])):
+        # IDs that begin or end with a blank (an ID is the whole text)
+        for key in ("obs", "samp"):
+            pad = draw(st.sampled_from(["%s ", " %s", "%s\t", " %s "]))
+            cand = pad % spec[key][-1]
+            if cand not in spec[key]:
+                spec[key] = spec[key][:-1] + [cand]
     steps = draw(st.lists(alphabet.op_strategy(), min_size=1,
                           max_size=6 if tier == "quick" else 10))
     return {"table": spec, "steps": steps, "phase": draw(st.integers(0, 7)),
